@@ -208,7 +208,8 @@ class Run:
     # ---------- correspondence ----------
     def run_pair(self, ops, variant="plain", src="harness.c", wraps=("arc4random_buf",), env=None, timeout=3000):
         """Run the same op lines through the harness and the driver; returns (impl_lines, model_lines)."""
-        opf = os.path.join(self.scratch, "ops_%d.txt" % len(os.listdir(self.scratch)))
+        import uuid
+        opf = os.path.join(self.scratch, "ops_%s.txt" % uuid.uuid4().hex[:12])
         with open(opf, "w") as fh:
             fh.write("\n".join(ops) + "\n")
         exe = self.harness(variant, src, wraps)
@@ -227,6 +228,36 @@ class Run:
         self.last_impl_rc = pi.returncode
         il, ml = io.splitlines(), mo.splitlines()
         return il, ml, opf
+
+    def run_pair_sharded(self, groups, nshards=16, **kw):
+        """groups: list of self-contained op lists (no state shared between groups).  They are distributed over
+        `nshards` harness/driver process pairs running concurrently; outputs come back in the original order."""
+        import concurrent.futures
+        exe = self.harness(kw.get("variant", "plain"), kw.get("src", "harness.c"), kw.get("wraps", ("arc4random_buf",)))
+        drv, out = self.driver()
+        if drv is None: raise ModelBuildError(out)
+        # greedy balance by op count
+        shards = [[] for _ in range(nshards)]
+        sizes = [0] * nshards
+        for gi, g in sorted(enumerate(groups), key=lambda x: -len(x[1])):
+            k = sizes.index(min(sizes)); shards[k].append(gi); sizes[k] += len(g)
+        def one(k):
+            ops = [op for gi in shards[k] for op in groups[gi]]
+            if not ops: return [], []
+            il, ml, _ = self.run_pair(ops, **kw)
+            return il, ml
+        with concurrent.futures.ThreadPoolExecutor(nshards) as ex:
+            res = list(ex.map(one, range(nshards)))
+        il_by, ml_by = {}, {}
+        for k in range(nshards):
+            il, ml = res[k]; pos = 0
+            for gi in shards[k]:
+                n = len(groups[gi])
+                il_by[gi] = il[pos:pos + n]; ml_by[gi] = ml[pos:pos + n]; pos += n
+        ops_all, il_all, ml_all = [], [], []
+        for gi, g in enumerate(groups):
+            ops_all += g; il_all += il_by.get(gi, []); ml_all += ml_by.get(gi, [])
+        return ops_all, il_all, ml_all
 
     def run_impl(self, ops, variant="plain", src="harness.c", wraps=("arc4random_buf",), env=None, timeout=3000):
         exe = self.harness(variant, src, wraps)
